@@ -58,7 +58,7 @@ def run(ctx):
     io_digests = {}
     io_cases = 0
     for name, flags, runner in BUILDS:
-        if runner is not None:
+        if not thorough and name == "O1_assert_valgrind":
             continue
         exe, bad = iogen.build_binary(ctx, io_stacks, c06.MAIN, flags, "io_" + name)
         if exe is None:
@@ -66,7 +66,13 @@ def run(ctx):
                 ctx.violation("compile:io_" + name, "an IO harness unit does not compile against the tree: " + core.first_diag(log), {"compile_log": log[-3000:], "file": str(pth)})
             continue
         for mode in ("roundtrip", "pairs"):
-            st = c06.run_mode(ctx, exe, [mode, "quick"], "io_%s_%s" % (mode, name))
+            if runner is not None and mode == "pairs":
+                continue
+            # under memcheck: one bit pattern per configuration variant (every stack, every variant, load + lookups at every lattice coordinate)
+            st = c06.run_mode(ctx, exe, [mode, "quick"], "io_%s_%s" % (mode, name), runner=runner, env=({"VP_IO_LIGHT": "1"} if runner else None))
+            if runner is not None:
+                continue   # fewer patterns: its digest is not comparable with the sanitizer builds'
+
             io_cases += int(st.get("evaluations", 0))
             for gname, gv in st.get("groups", {}).items():
                 io_digests.setdefault((mode, gname), {})[name] = gv.get("digest")
@@ -90,7 +96,7 @@ def run(ctx):
         "and identical 64-bit digests of all observed values across the configurations; distinct_nontrivial counts the cases of one configuration" % [b[0] for b in BUILDS],
         {"lookup_stacks": len(stacks), "builds": [b[0] for b in BUILDS], "io_stacks": len(io_stacks), "io_cases_both_sanitizer_builds": io_cases,
          "io_programs": "(3) dump + load of every array-backed catalogue stack up to depth 3 (five configuration variants incl. a several-KiB payload) and every writer -> reader pair of them that differs only in interpolator / float width, "
-                        "in the two sanitizer builds; same oracle (no sanitizer report, identical digests)"})
+                        "in the two sanitizer builds, the round trips (one bit pattern per variant, with lookups at every lattice coordinate of the reloaded field) also under memcheck; same oracle (no sanitizer / memcheck report, identical digests)"})
     ctx.assumptions += ["'randomly generated programs' is replaced by bounded-exhaustive enumeration of histories and of the stack cover", "malformed input streams are C08's subject, not this property's domain"]
 
 
